@@ -40,6 +40,34 @@ class TorchCalls(TorchOps):
             if extra or len(args) > 1 or (init is not None and self.const_int(init) != 0 and not (isinstance(init, Const) and init.v is None)):
                 return self.unk("accumulate with a custom function / initial value", node)
             return self.accumulate(args[0], node, initial=init is not None and not (isinstance(init, Const) and init.v is None))
+        if name == "functools.reduce" and 2 <= len(args) <= 3 and not kwargs:
+            lst = self.to_list(args[1], "list", node)
+            I = self.interp
+            if isinstance(lst, ListV) and lst.items is not None:
+                items = list(lst.items)
+                if len(args) == 3:
+                    acc = args[2]
+                elif items:
+                    acc = items.pop(0)
+                else:
+                    return self.unk("reduce of an empty sequence without initial value", node)
+                for x in items:
+                    acc = I.call_value(args[0], [acc, x], {}, node, env)
+                return acc
+            if isinstance(lst, ListV) and lst.elem is not None and len(args) == 3:
+                # least fixpoint of acc = acc ⊔ f(acc, elem)
+                acc = args[2]
+                I.join_depth += 1
+                try:
+                    for _ in range(8):
+                        nxt = I.join_vals(acc, I.call_value(args[0], [acc, lst.elem], {}, node, env), set())
+                        if nxt == acc or repr(nxt) == repr(acc):
+                            break
+                        acc = nxt
+                finally:
+                    I.join_depth -= 1
+                return acc
+            return self.unk("functools.reduce over this sequence", node)
         if name in ("itertools.chain", "itertools.chain.from_iterable"):
             if kwargs:
                 return self.unk("chain with keywords", node)
@@ -226,6 +254,16 @@ class TorchCalls(TorchOps):
             return Const("<str>") if fn in ("str", "repr") else (NONE if fn == "print" else TV(kind="pyint"))
         if fn in ("iter",):
             return args[0]
+        if fn == "next" and 1 <= len(args) <= 2:
+            lst = self.to_list(args[0], "list", node)
+            if isinstance(lst, ListV) and lst.items is not None:
+                if lst.items:
+                    return lst.items[0]
+                if len(args) == 2:
+                    return args[1]
+                I.may_raise(["StopIteration"], node, "next")
+                return self.unk("next of an empty iterator", node)
+            return self.unk("next of an abstract iterator", node)
         if fn.endswith("Error") or fn == "Exception":
             return ExtV("exception." + fn)
         if fn == "map":
@@ -418,8 +456,17 @@ class TorchCalls(TorchOps):
             part = ListV(items=None, elem=self.set_elem(SetV(items=part.items)), kind="list", order=part.order)
         return replace(part, kind="list", head=None, tail=())
 
+    def accumulate_concrete(self, lst, node, initial):
+        out, acc = ([Const(0)] if initial else []), (Const(0) if initial else None)
+        for x in lst.items:
+            acc = x if acc is None else self.binary(acc, ast.Add(), x, node, None)
+            out.append(acc)
+        return ListV(items=tuple(out), kind="list", order=lst.order)
+
     def accumulate(self, v, node, initial=False):
         lst = self.to_list(v, "list", node)
+        if isinstance(lst, ListV) and lst.items is not None and len(lst.items) <= 8:
+            return self.accumulate_concrete(lst, node, initial)
         if isinstance(lst, ListV):
             e = lst.elem if lst.items is None else self.set_elem(SetV(items=lst.items))
             t = tv_of(e) if e is not None else None
@@ -555,7 +602,9 @@ class TorchCalls(TorchOps):
         I = self.interp
         if name == "keys":
             k = self.dict_keys(d)
-            return k if k is not None else ListV(items=None, elem=Unk("keys"))
+            if isinstance(k, ListV):
+                return replace(k, kind="keys")  # a keys view: compares with sets as a set
+            return k if k is not None else ListV(items=None, elem=Unk("keys"), kind="keys")
         if name == "values":
             if d.items is not None:
                 return ListV(items=tuple(v for _, v in d.items))
